@@ -1,7 +1,7 @@
 PROP = dict(
   units=['vbq', 'utilpow', 'scq', 'nbq'],
   level='other',
-  obligations=['vbq.push_strong.full_iff', 'vbq.pop_strong.empty_iff', 'vbq.fifo', 'vbq.inv.preserved', 'vbq.weak.no_wrong_success', 'vbq.push.commit', 'vbq.pop.commit',
+  obligations=['nbq.pop_optional.same_as_try_pop', 'vbq.push_strong.full_iff', 'vbq.pop_strong.empty_iff', 'vbq.fifo', 'vbq.inv.preserved', 'vbq.weak.no_wrong_success', 'vbq.push.commit', 'vbq.pop.commit',
                'vbq.push_strong.full_instant', 'vbq.pop_strong.empty_instant', 'vbq.sync.cell_sequence', 'vbq.ctor.establishes',
                'utilpow.fls.spec', 'utilpow.ipot.spec', 'utilpow.npot.spec',
                'scq.dequeue.retries_bounded', 'scq.sync.orders', 'scq.remap.shift', 'scq.remap.bijective', 'scq.init.inv', 'scq.enqueue.appends', 'scq.enqueue.finalized_fails', 'scq.dequeue.takes_first',
